@@ -9,8 +9,16 @@
    with an equal value (presence required); [render d] writes an abstract DN
    (list of (type, value), values over all 256 bytes) with a free style per
    attribute: S or ST, spaces around type and value, ',' or ';', per-byte
-   escaping.  Quantifiers: all identity lists, all chains, all strings. *)
-From NV Require Import Base C04_DN C04_Model C04_RoundTrip C04_Proofs.
+   escaping.  Quantifiers: all identity lists, all chains, all strings.
+
+   Added by the theorem audit (docs/audit/C04.md; proofs in C04_Audit.v), after the
+   first block: [pinned_match ids leaf] abbreviates the right-hand side of C04_match;
+   [x509_maps ids] = the interpretations of the x509.subject identities of a list
+   (C04_x509_maps_spec); [written_attrs s] = the attributes of a name AS WRITTEN
+   (what go-ldap's ParseDN returns, in order, alias S resolved); [last_value k atts]
+   = the value of the last attribute of type k; [earlier_empty atts] = a type written
+   several times has an empty value everywhere but at its last occurrence. *)
+From NV Require Import Base C04_DN C04_Model C04_RoundTrip C04_Proofs C04_Audit.
 From Coq Require Import Permutation.
 Open Scope string_scope.
 
@@ -141,6 +149,187 @@ Theorem C04_model_meets_oracle : forall i, wf i = true -> spec_ok i (model i) = 
 Proof. exact model_spec_ok. Qed.
 Print Assumptions C04_model_meets_oracle.
 
+(* ====================================================================== *)
+(* added by the theorem audit                                              *)
+(* ====================================================================== *)
+
+(* --- the clause at the observation point: the authenticity result of Verify --- *)
+
+(* Verify reports authenticity "passed" exactly when the policy was accepted by
+   NewVerifier (or put into the document afterwards), the signature is not
+   rejected, and either the wildcard is listed or: the leaf subject can be
+   interpreted, every listed identity can be interpreted, and every attribute
+   of some x509.subject identity occurs with an equal value in the leaf subject *)
+Theorem C04_verify_pass_iff : forall late log ids leaf rest rej,
+  model (IVerify late log ids (leaf :: rest)) = OVerify VPass rej <->
+  (late = true \/ validate_ids ids = WOk) /\ rej = false /\
+  (mem_str wildcard ids = true \/
+   exists m, parse_distinguished_name leaf = DOk m /\
+             (forall id, In id ids -> interpretable id) /\
+             exists id v i, In id ids /\ x509_value id = Some v /\
+                            parse_distinguished_name v = DOk i /\ within i m).
+Proof. exact model_pass_iff. Qed.
+Print Assumptions C04_verify_pass_iff.
+
+(* the same with a verification plugin named by the signature: the plugin's
+   answer replaces the native check iff it owns trusted-identity verification *)
+Theorem C04_plugin_pass_iff : forall ti rv pok log ids leaf rest rej,
+  model (IPlugin ti rv pok log ids (leaf :: rest)) = OVerify VPass rej <->
+  validate_ids ids = WOk /\ rej = false /\
+  (if ti then pok = true else (mem_str wildcard ids = true \/ pinned_match ids leaf)).
+Proof. exact plugin_pass_iff. Qed.
+Print Assumptions C04_plugin_pass_iff.
+
+(* --- policies accepted by NewVerifier: "the LONE wildcard" --- *)
+
+Theorem C04_validated_wildcard_lone : forall ids,
+  validate_ids ids = WOk -> mem_str wildcard ids = true -> ids = [wildcard].
+Proof. exact validated_wildcard_lone. Qed.
+Print Assumptions C04_validated_wildcard_lone.
+
+Theorem C04_validated_interpretable : forall ids, validate_ids ids = WOk ->
+  ids <> [] /\ forall id, In id ids -> id = wildcard \/ (id <> "" /\ interpretable id).
+Proof. exact validated_interpretable. Qed.
+Print Assumptions C04_validated_interpretable.
+
+(* the complete result (error class included) whenever every identity can be interpreted *)
+Theorem C04_verdict_interpretable : forall ids leaf rest,
+  (forall id, In id ids -> interpretable id) ->
+  verify_identities ids (leaf :: rest) =
+  match x509_maps ids with
+  | [] => VNoX509
+  | _ :: _ =>
+      match parse_distinguished_name leaf with
+      | DErr e => VBadLeaf e
+      | DOk m => if existsb (fun i => is_subset_dn i m) (x509_maps ids) then VPass else VNoMatch
+      end
+  end.
+Proof. exact verdict_interpretable. Qed.
+Print Assumptions C04_verdict_interpretable.
+
+(* under an accepted policy the identity check never ends in an identity error *)
+Theorem C04_validated_verdict : forall ids leaf rest, validate_ids ids = WOk ->
+  (ids = [wildcard] /\ verify_identities ids (leaf :: rest) = VPass) \/
+  (mem_str wildcard ids = false /\ (forall id, In id ids -> interpretable id) /\
+   verify_identities ids (leaf :: rest) =
+   match x509_maps ids with
+   | [] => VNoX509
+   | _ :: _ =>
+       match parse_distinguished_name leaf with
+       | DErr e => VBadLeaf e
+       | DOk m => if existsb (fun i => is_subset_dn i m) (x509_maps ids) then VPass else VNoMatch
+       end
+   end).
+Proof. exact validated_verdict. Qed.
+Print Assumptions C04_validated_verdict.
+
+Theorem C04_x509_maps_spec : forall ids i, In i (x509_maps ids) <->
+  exists id v, In id ids /\ x509_value id = Some v /\ parse_distinguished_name v = DOk i.
+Proof. exact in_x509_maps. Qed.
+Print Assumptions C04_x509_maps_spec.
+
+(* --- independence of the text: the verdict is a function of the INTERPRETATIONS ---
+   any two identity lists whose x509.subject identities have the same readings
+   (in any order, with repetitions, with foreign-prefix identities anywhere) and
+   any two leaf subjects with the same reading get the same result; together
+   with C04_roundtrip this contains C04_order_alias_space, and it holds for
+   every text, not only for the renderer's *)
+Theorem C04_verdict_by_reading : forall ids1 ids2 leaf1 leaf2 rest1 rest2 m1 m2,
+  (forall id, In id ids1 -> interpretable id) -> (forall id, In id ids2 -> interpretable id) ->
+  (forall i, In i (x509_maps ids1) -> exists j, In j (x509_maps ids2) /\ same_attrs i j) ->
+  (forall j, In j (x509_maps ids2) -> exists i, In i (x509_maps ids1) /\ same_attrs i j) ->
+  parse_distinguished_name leaf1 = DOk m1 -> parse_distinguished_name leaf2 = DOk m2 ->
+  same_attrs m1 m2 ->
+  verify_identities ids1 (leaf1 :: rest1) = verify_identities ids2 (leaf2 :: rest2).
+Proof. exact verdict_by_reading. Qed.
+Print Assumptions C04_verdict_by_reading.
+
+(* --- subsets pass; supersets, near misses and CA subjects do not (abstract DNs) ---
+   the check passes iff ALL attributes of some identity are attributes of the
+   leaf subject (not the other way round, not a part of a value) *)
+Theorem C04_abstract_pass_iff : forall ds l rest,
+  Forall (fun d => styled_wf d = true) ds -> styled_wf l = true ->
+  (verify_identities (map id_of ds) (render l :: rest) = VPass <->
+   exists d, In d ds /\ incl (map snd d) (map snd l)) /\
+  (verify_identities (map id_of ds) (render l :: rest) = VNoMatch <->
+   ds <> [] /\ forall d, In d ds -> ~ incl (map snd d) (map snd l)).
+Proof. exact abstract_pass_iff. Qed.
+Print Assumptions C04_abstract_pass_iff.
+
+(* --- which names can be interpreted (pkix.ParseDistinguishedName on the RDNs
+   go-ldap returns): exactly those without "=#", that go-ldap reads, without
+   multi-valued RDN, whose repeated types are empty everywhere but at the last
+   occurrence, and whose C, ST (or S), O have a non-empty last value --- *)
+Theorem C04_parse_accepts_iff : forall s,
+  (exists m, parse_distinguished_name s = DOk m) <->
+  has_eqhash (list_ascii_of_string s) = false /\
+  exists rdns, parse_dn s = POk rdns /\
+    Forall (fun rdn => (List.length rdn <= 1)%nat) rdns /\
+    earlier_empty (map canon_attr (List.concat rdns)) /\
+    forall f, In f mandatory ->
+      exists v, last_value f (map canon_attr (List.concat rdns)) = Some v /\ v <> "".
+Proof. exact parse_accepts_iff. Qed.
+Print Assumptions C04_parse_accepts_iff.
+
+(* the interpretation maps every type to its last written value *)
+Theorem C04_parse_result : forall s m atts, parse_distinguished_name s = DOk m ->
+  written_attrs s = Some atts -> forall k, lookup k m = last_value k atts.
+Proof. exact parse_result. Qed.
+Print Assumptions C04_parse_result.
+
+Theorem C04_multi_valued_rejected : forall s rdns, parse_dn s = POk rdns ->
+  Exists (fun rdn => (1 < List.length rdn)%nat) rdns ->
+  exists e, parse_distinguished_name s = DErr e.
+Proof. exact multi_valued_rejected. Qed.
+Print Assumptions C04_multi_valued_rejected.
+
+Theorem C04_duplicate_rejected : forall s atts l1 k v l2, written_attrs s = Some atts ->
+  atts = (l1 ++ (k, v) :: l2)%list -> In k (map fst l2) -> v <> "" ->
+  exists e, parse_distinguished_name s = DErr e.
+Proof. exact duplicate_rejected. Qed.
+Print Assumptions C04_duplicate_rejected.
+
+Theorem C04_mandatory_rejected : forall s atts f, written_attrs s = Some atts -> In f mandatory ->
+  (last_value f atts = None \/ last_value f atts = Some "") ->
+  exists e, parse_distinguished_name s = DErr e.
+Proof. exact mandatory_rejected. Qed.
+Print Assumptions C04_mandatory_rejected.
+
+(* "no duplicates" (anchor: DN parsing rules) holds when no empty value is
+   written, and is FALSE in general: "CN=,CN=alice,C=US,ST=WA,O=Notary" is
+   accepted and read as CN=alice (pkix.go tests the stored VALUE against "",
+   not the presence of the key) *)
+Theorem C04_unique_types_partial : forall s m atts, parse_distinguished_name s = DOk m ->
+  written_attrs s = Some atts -> (forall k v, In (k, v) atts -> v <> "") -> NoDup (map fst atts).
+Proof. exact unique_types_partial. Qed.
+Print Assumptions C04_unique_types_partial.
+
+Theorem C04_unique_types_refuted : exists s m atts, parse_distinguished_name s = DOk m /\
+  written_attrs s = Some atts /\ ~ NoDup (map fst atts).
+Proof. exact unique_types_refuted. Qed.
+Print Assumptions C04_unique_types_refuted.
+
+(* --- "every attribute of that identity", read on the attributes AS WRITTEN ---
+   if the check passes without wildcard then for some listed x509.subject
+   identity every attribute written in it with a non-empty value is written in
+   the leaf subject with the same value; for empty-valued attributes this is
+   false (witness: the identity above against the subject CN=alice,...) *)
+Theorem C04_match_written_partial : forall ids leaf rest, mem_str wildcard ids = false ->
+  verify_identities ids (leaf :: rest) = VPass ->
+  exists id v atts latts, In id ids /\ x509_value id = Some v /\
+    written_attrs v = Some atts /\ written_attrs leaf = Some latts /\
+    forall k val, In (k, val) atts -> val <> "" -> In (k, val) latts.
+Proof. exact match_written_partial. Qed.
+Print Assumptions C04_match_written_partial.
+
+Theorem C04_match_written_refuted : exists ids leaf,
+  mem_str wildcard ids = false /\ verify_identities ids [leaf] = VPass /\
+  forall id v atts latts, In id ids -> x509_value id = Some v ->
+    written_attrs v = Some atts -> written_attrs leaf = Some latts ->
+    exists k val, In (k, val) atts /\ ~ In (k, val) latts.
+Proof. exact match_written_refuted. Qed.
+Print Assumptions C04_match_written_refuted.
+
 (* ---------- non-vacuity ---------- *)
 
 Definition ex_leaf := "CN=alice,O=Notary,ST=WA,C=US".
@@ -179,3 +368,122 @@ Example C04_example_wf :
   wf (IVerify false false ["x509.subject:C=US,ST=WA,O=Notary"] [ex_leaf; ex_root]) = true
   /\ model (IVerify false false ["x509.subject:C=US,ST=WA,O=Notary"] [ex_leaf; ex_root]) = OVerify VPass false.
 Proof. vm_compute. split; reflexivity. Qed.
+
+(* ---------- non-vacuity of the hypotheses of the theorems above (audit) ---------- *)
+
+Definition ex_id := "x509.subject:C=US,ST=WA,O=Notary".
+
+(* C04_fail_closed_leaf: leaf subjects that cannot be interpreted (no C/ST/O;
+   a multi-valued RDN, as crypto/x509 prints two OUs; an unknown OID "=#") *)
+Example C04_example_bad_leaf :
+  mem_str wildcard [ex_id] = false
+  /\ parse_distinguished_name "CN=alice" = DErr (EMissing "C")
+  /\ verify_identities [ex_id] ["CN=alice"; ex_root] = VBadLeaf (EMissing "C")
+  /\ parse_distinguished_name "OU=a+OU=b,O=Notary,ST=WA,C=US" = DErr EMulti
+  /\ verify_identities [ex_id] ["OU=a+OU=b,O=Notary,ST=WA,C=US"] = VBadLeaf EMulti
+  /\ verify_identities [ex_id] ["1.2.3.4=#0c0141,O=Notary,ST=WA,C=US"] = VBadLeaf EHash.
+Proof. vm_compute. repeat split; reflexivity. Qed.
+
+(* C04_fail_closed_identity: one uninterpretable identity AFTER a matching one, at any position *)
+Example C04_example_bad_identity :
+  identity_ok "x509.subject:CN=foo" = false /\ identity_ok "garbage" = false /\ identity_ok "x509.subject:" = false
+  /\ verify_identities [ex_id] [ex_leaf] = VPass
+  /\ verify_identities [ex_id; "x509.subject:CN=foo"] [ex_leaf] = VBadIdentity (EMissing "C")
+  /\ verify_identities ["garbage"; ex_id] [ex_leaf] = VNoSep
+  /\ verify_identities [ex_id; "foo:bar"; "x509.subject:"] [ex_leaf] = VEmptyValue.
+Proof. vm_compute. repeat split; reflexivity. Qed.
+
+(* C04_fail_closed_no_x509: the empty list and a list of foreign identities *)
+Example C04_example_no_x509 :
+  (forall id, In id ["foo:bar"; "oidc.subject:https://issuer/alice"] -> x509_value id = None)
+  /\ verify_identities ["foo:bar"; "oidc.subject:https://issuer/alice"] [ex_leaf] = VNoX509
+  /\ verify_identities [] [ex_leaf] = VNoX509.
+Proof.
+  split; [|vm_compute; split; reflexivity]. intros id [<-|[<-|[]]]; reflexivity.
+Qed.
+
+(* C04_wildcard: also a subject that cannot be interpreted; a mixed list is not accepted by NewVerifier *)
+Example C04_example_wildcard :
+  verify_identities [wildcard] ["CN=alice"] = VPass
+  /\ validate_ids [wildcard] = WOk
+  /\ validate_ids [wildcard; ex_id] = WWildcardMixed
+  /\ validate_ids [ex_id] = WOk
+  /\ model (IVerify false false [ex_id; wildcard] [ex_leaf]) = OConstruct WWildcardMixed.
+Proof. vm_compute. repeat split; reflexivity. Qed.
+
+(* C04_strict_rejects / C04_verify_pass_iff: a rejected and an accepted signature *)
+Example C04_example_strict :
+  model (IVerify true false ["x509.subject:C=US,ST=WA,O=Nope"] [ex_leaf; ex_root]) = OVerify VNoMatch true
+  /\ model (IVerify true true ["x509.subject:C=US,ST=WA,O=Nope"] [ex_leaf; ex_root]) = OVerify VNoMatch false
+  /\ model (IVerify false false [ex_id] [ex_leaf; ex_root]) = OVerify VPass false.
+Proof. vm_compute. repeat split; reflexivity. Qed.
+
+(* C04_plugin_guard_owned / C04_plugin_pass_iff: the plugin's verdict decides, in both directions *)
+Example C04_example_plugin :
+  validate_ids [ex_id] = WOk
+  /\ model (IPlugin true false false false [ex_id] [ex_leaf]) = OVerify VPluginFail true
+  /\ model (IPlugin true true true false ["x509.subject:C=US,ST=WA,O=Nope"] [ex_leaf]) = OVerify VPass false
+  /\ model (IPlugin false true true false ["x509.subject:C=US,ST=WA,O=Nope"] [ex_leaf]) = OVerify VNoMatch true.
+Proof. vm_compute. repeat split; reflexivity. Qed.
+
+(* C04_order_alias_space: two different styled writings of the same identity and of the same subject *)
+Example C04_example_invariance :
+  let i1 := [(style0, ("C", "US")); (style0, ("ST", "WA")); (style0, ("O", "Notary"))] in
+  let i2 := [(mk_astyle false true 1 1 0 2 [], ("O", "Notary")); (mk_astyle true false 0 1 1 0 [3; 0]%N, ("ST", "WA")); (style0, ("C", "US"))] in
+  let l1 := [(style0, ("CN", "alice")); (style0, ("O", "Notary")); (style0, ("ST", "WA")); (style0, ("C", "US"))] in
+  let l2 := [(style0, ("C", "US")); (mk_astyle true true 0 0 0 0 [], ("ST", "WA")); (style0, ("O", "Notary")); (mk_astyle false false 2 0 0 1 [2]%N, ("CN", "alice"))] in
+  styled_wf i1 = true /\ styled_wf i2 = true /\ styled_wf l1 = true /\ styled_wf l2 = true
+  /\ Permutation (map snd i1) (map snd i2) /\ Permutation (map snd l1) (map snd l2)
+  /\ id_of i1 = "x509.subject:C=US,ST=WA,O=Notary"
+  /\ id_of i2 = "x509.subject: O =Notary  ;S = \57A,C=US"
+  /\ render l2 = "C=US,S=WA;O=Notary,  CN=\61lice "
+  /\ verify_identities [id_of i1] [render l1] = VPass /\ verify_identities [id_of i2] [render l2; ex_root] = VPass.
+Proof.
+  cbv zeta. repeat split; try (vm_compute; reflexivity).
+  - cbn [map snd]. eapply perm_trans; [apply perm_swap|]. eapply perm_trans; [apply perm_skip; apply perm_swap|]. apply perm_swap.
+  - cbn [map snd]. apply Permutation_rev' || idtac.
+    change (Permutation [("CN", "alice"); ("O", "Notary"); ("ST", "WA"); ("C", "US")] (rev [("CN", "alice"); ("O", "Notary"); ("ST", "WA"); ("C", "US")])).
+    apply Permutation_rev.
+Qed.
+
+(* C04_verdict_by_reading: lists of different length and order, a foreign identity in one of them *)
+Example C04_example_by_reading :
+  let ids1 := ["foo:bar"; "x509.subject: C = US ; S=WA, O=Notary"; "x509.subject:C=FR,ST=IDF,O=Autre"] in
+  let ids2 := ["x509.subject:O=Autre,C=FR,ST=IDF"; "x509.subject:O=Notary,ST=WA,C=US"; "x509.subject:C=US,ST=WA,O=Notary"] in
+  (forall id, In id ids1 -> interpretable id) /\ (forall id, In id ids2 -> interpretable id)
+  /\ x509_maps ids1 = [[("O", "Notary"); ("ST", "WA"); ("C", "US")]; [("O", "Autre"); ("ST", "IDF"); ("C", "FR")]]
+  /\ x509_maps ids2 = [[("ST", "IDF"); ("C", "FR"); ("O", "Autre")]; [("C", "US"); ("ST", "WA"); ("O", "Notary")]; [("O", "Notary"); ("ST", "WA"); ("C", "US")]]
+  /\ verify_identities ids1 [ex_leaf] = VPass /\ verify_identities ids2 ["C=US;S=WA;O=Notary;CN=alice"; ex_root] = VPass.
+Proof.
+  cbv zeta. split; [|split].
+  - intros id [<-|[<-|[<-|[]]]]; apply identity_ok_spec; vm_compute; reflexivity.
+  - intros id [<-|[<-|[<-|[]]]]; apply identity_ok_spec; vm_compute; reflexivity.
+  - vm_compute. repeat split; reflexivity.
+Qed.
+
+(* C04_abstract_pass_iff: a strict subset passes, a superset and a one-character near miss do not *)
+Example C04_example_subset_superset :
+  let l := [(style0, ("CN", "alice")); (style0, ("O", "Notary")); (style0, ("ST", "WA")); (style0, ("C", "US"))] in
+  let sub := [(style0, ("C", "US")); (style0, ("O", "Notary")); (style0, ("ST", "WA"))] in
+  let sup := [(style0, ("OU", "dev")); (style0, ("CN", "alice")); (style0, ("O", "Notary")); (style0, ("ST", "WA")); (style0, ("C", "US"))] in
+  let near := [(style0, ("C", "US")); (style0, ("O", "Notar")); (style0, ("ST", "WA"))] in
+  Forall (fun d => styled_wf d = true) [sub; sup; near] /\ styled_wf l = true
+  /\ verify_identities [id_of sub] [render l] = VPass
+  /\ verify_identities [id_of sup] [render l] = VNoMatch
+  /\ verify_identities [id_of near] [render l] = VNoMatch
+  /\ verify_identities [id_of sup; id_of near; id_of sub] [render l] = VPass.
+Proof. cbv zeta. split; [repeat constructor|]. vm_compute. repeat split; reflexivity. Qed.
+
+(* C04_parse_accepts_iff and the rejection theorems: written attributes of accepted and refused names *)
+Example C04_example_written :
+  written_attrs " S = WA ;C=US,O=a\,b" = Some [("ST", "WA"); ("C", "US"); ("O", "a,b")]
+  /\ parse_distinguished_name " S = WA ;C=US,O=a\,b" = DOk [("O", "a,b"); ("C", "US"); ("ST", "WA")]
+  /\ parse_dn "C=US+ST=WA,O=x" = POk [[("C", "US"); ("ST", "WA")]; [("O", "x")]]
+  /\ parse_distinguished_name "C=US+ST=WA,O=x" = DErr EMulti
+  /\ written_attrs "CN=a,CN=,C=US,ST=WA,O=x" = Some [("CN", "a"); ("CN", ""); ("C", "US"); ("ST", "WA"); ("O", "x")]
+  /\ parse_distinguished_name "CN=a,CN=,C=US,ST=WA,O=x" = DErr (EDup "CN")
+  /\ parse_distinguished_name "C=US,S=WA,ST=WA,O=x" = DErr (EDup "ST")
+  /\ written_attrs "C=US,O=x" = Some [("C", "US"); ("O", "x")]
+  /\ parse_distinguished_name "C=US,O=x" = DErr (EMissing "ST")
+  /\ parse_distinguished_name "C=US,ST=,O=x" = DErr (EMissing "ST").
+Proof. vm_compute. repeat split; reflexivity. Qed.
